@@ -240,6 +240,8 @@ def summary(args):
             note = "patch no longer applies to HEAD"
         if meta.get("not_decided_by_property"):
             note = "not decided by the property text (see meta.json)"
+        if meta.get("not_reached"):
+            note = "not reached by the generators (reason in meta.json)"
         if mine:
             own += 1
         elif others:
